@@ -23,7 +23,9 @@ RULE = ("Seed-driven DRAW programs: 1-6 DRAW statements of 1-10 commands each, c
         "{omitted, 0, 1, small, up to 300, negative}, scales 1..255 (mostly not multiples of 4), "
         "prefixes B/N/BN on a third of the moves, absolute and relative M, C inside the mode's "
         "attribute range, X substrings nested up to 2 deep (by name; and by VARPTR$), numeric "
-        "arguments through integer/single/double variables and array elements, separators "
+        "arguments (counts, both coordinates of M, S, C) as literals, =var; or =VARPTR$(var), each "
+        "optionally signed, through integer/single/double variables and array elements holding "
+        "positive, negative and zero values, separators "
         "';'/blank/none; one mode per case sampled from all graphics modes (low resolution "
         "weighted 3:1). Non-trivial: the program has a B or N prefix, a scale other than 4 and at "
         "least 3 moves, or uses X or a variable argument. distinct = distinct case.")
@@ -39,6 +41,11 @@ ASSUMPTIONS = [
     "the first DRAW and every DRAW after an intervening PSET start with an explicit C command, so "
     "nothing is assumed about the colour a DRAW inherits from other statements",
     "variables used as arguments hold integral values (conversion of fractions is not specified)",
+    "every numeric argument (move counts, both coordinates of M, S, C) may be a literal, =var; or "
+    "=VARPTR$(var), each optionally signed; the value is sign x value (GW-BASIC manual: "
+    "M+=X1;,-=Y1;), a sign in front of the x of M makes the move relative; S and C references are "
+    "chosen so that sign x value is in range; absolute M only takes references whose value is on "
+    "screen",
     "DRAW must not raise an error on these strings; the LINE replay must not either",
     "all simple variables (incl. E of the error handler) exist before the first VARPTR$ is taken, "
     "because creating a simple variable moves the arrays and would invalidate element pointers",
@@ -70,7 +77,9 @@ class Pen(object):
             return None
         if isinstance(arg, int):
             return arg
-        return int(variables[arg['var']])
+        # {'lit': n | 'var': name, 'sign': '' | '+' | '-'}: the value is sign x value
+        v = arg['lit'] if 'lit' in arg else int(variables[arg['var']])
+        return -v if arg.get('sign') == '-' else v
 
     def run(self, cmds, subs, variables, depth=0):
         for c in cmds:
@@ -110,10 +119,12 @@ def _arg_text(arg):
     """-> list of parts: str or ('vp', name)."""
     if isinstance(arg, int):
         return [str(arg)]
-    form = arg.get('form', 'name')
-    if form == 'vp':
-        return ['=', ('vp', arg['var'])]
-    return ['=%s;' % arg['var']]
+    sign = arg.get('sign', '')
+    if 'lit' in arg:
+        return ['%s%d' % (sign, arg['lit'])]
+    if arg.get('form', 'name') == 'vp':
+        return [sign + '=', ('vp', arg['var'])]
+    return ['%s=%s;' % (sign, arg['var'])]
 
 
 def render_cmds(cmds):
@@ -133,9 +144,18 @@ def render_cmds(cmds):
         elif k == 'M':
             parts.append(c.get('pre', '') + 'M')
             if c['rel']:
+                # the sign in front of x is what makes the move relative
                 x, y = c['x'], c['y']
-                parts.append('%s%d,%s%d' % ('-' if x < 0 else '+', abs(x),
-                                            '-' if y < 0 else c.get('ysign', ''), abs(y)))
+                if isinstance(x, int):
+                    parts.append('%s%d' % ('-' if x < 0 else '+', abs(x)))
+                else:
+                    assert x.get('sign') in ('+', '-')
+                    parts.extend(_arg_text(x))
+                parts.append(',')
+                if isinstance(y, int):
+                    parts.append('%s%d' % ('-' if y < 0 else c.get('ysign', ''), abs(y)))
+                else:
+                    parts.extend(_arg_text(y))
             else:
                 parts.extend(_arg_text(c['x']))
                 parts.append(',')
@@ -341,7 +361,13 @@ def check_case(case):
         has_prefix = any(c.get('pre') for c in moves)
         scales = [c for c in allcmds if c['c'] == 'S']
         uses_x = any(c['c'] == 'X' for c in allcmds)
-        uses_var = any(isinstance(c.get(f), dict) for c in allcmds for f in ('n', 'x', 'y'))
+        refs = [c.get(f) for c in allcmds for f in ('n', 'x', 'y')
+                if isinstance(c.get(f), dict) and 'var' in c.get(f)]
+        uses_var = bool(refs)
+        for a in refs:
+            res.label('ref:%s%s' % ({'': 'unsigned', '+': 'plus', '-': 'minus'}[a.get('sign', '')],
+                                    '/neg-value' if variables[a['var']] < 0 else
+                                    '/zero' if variables[a['var']] == 0 else ''))
         res.label('moves:%s' % ('<3' if len(moves) < 3 else '<10' if len(moves) < 10 else '>=10'))
         for flag, name in ((has_prefix, 'prefix'), (bool(scales), 'scale'), (uses_x, 'X'),
                            (uses_var, 'var-arg'),
@@ -382,9 +408,19 @@ def _count(r, variables, allow_var=True, lo=-40, big=300):
     if k == 10 and (not variables or r.random() < 0.5):
         return -r.randrange(1, -lo)
     if allow_var and variables:
-        nm = r.choice(sorted(variables))
-        return {'var': nm, 'form': r.choice(['name', 'name', 'vp'])}
-    return r.randrange(0, 12)
+        return _ref(r, variables)
+    return {'lit': r.randrange(0, 12), 'sign': '+'}
+
+
+def _ref(r, variables, signs=('', '', '+', '-', '-'), ok=None):
+    """Reference to a numeric variable, optionally signed; ok(value) filters sign x value."""
+    cands = [(nm, sg) for nm in sorted(variables) for sg in sorted(set(signs))
+             if ok is None or ok(-variables[nm] if sg == '-' else variables[nm])]
+    if not cands:
+        return None
+    nm = r.choice(sorted(set(c[0] for c in cands)))
+    sg = r.choice([q for q in signs if (nm, q) in cands])
+    return {'var': nm, 'form': r.choice(['name', 'name', 'vp']), 'sign': sg}
 
 
 def _cmds(r, variables, subnames, N, W, H, n, need_colour=False):
@@ -402,22 +438,33 @@ def _cmds(r, variables, subnames, N, W, H, n, need_colour=False):
             if r.random() < 0.55:
                 x = r.choice([0, 1, 3, 5, 7, r.randrange(0, 40), -r.randrange(1, 40)])
                 y = r.choice([0, 1, 3, 5, 7, r.randrange(0, 40), -r.randrange(1, 40)])
+                if variables and r.random() < 0.3:
+                    x = _ref(r, variables, signs=('+', '-', '-'))       # M+=X;  M-=X;
+                if variables and r.random() < 0.3:
+                    y = _ref(r, variables)                              # ,=Y;  ,-=Y;  ,+=Y;
                 cmds.append({'c': 'M', 'pre': pre, 'rel': True, 'x': x, 'y': y,
                              'ysign': r.choice(['', '+']), 'sep': sep})
             else:
                 x = r.choice([r.randrange(0, W), r.randrange(0, W), 0, W - 1, W + 5])
                 y = r.choice([r.randrange(0, H), r.randrange(0, H), 0, H - 1, H + 5])
-                ints = [nm for nm in sorted(variables) if 0 <= variables[nm] < min(W, H)]
-                if ints and r.random() < 0.2:
-                    nm = r.choice(ints)
-                    x = {'var': nm, 'form': 'name'}
+                inside = lambda v: 0 <= v < min(W, H)
+                if variables and r.random() < 0.25:
+                    # unsigned reference (a sign in front of x would make the move relative)
+                    x = _ref(r, variables, signs=('',), ok=inside) or x
+                if variables and r.random() < 0.25:
+                    y = _ref(r, variables, signs=('', '-'), ok=inside) or y
                 cmds.append({'c': 'M', 'pre': pre, 'rel': False, 'x': x, 'y': y, 'sep': sep})
         elif k == 'S':
             s = r.choice([1, 2, 3, 5, 6, 7, 9, 10, 11, 13, 4, 8, 12, 16, r.randrange(1, 40),
                           r.randrange(1, 256)])
+            if variables and r.random() < 0.25:
+                s = _ref(r, variables, ok=lambda v: 1 <= v <= 255) or s
             cmds.append({'c': 'S', 'n': s, 'sep': sep})
         elif k == 'C':
-            cmds.append({'c': 'C', 'n': r.randrange(0, N), 'sep': sep})
+            col = r.randrange(0, N)
+            if variables and r.random() < 0.25:
+                col = _ref(r, variables, ok=lambda v: 0 <= v < N) or col
+            cmds.append({'c': 'C', 'n': col, 'sep': sep})
         else:
             cmds.append({'c': 'X', 'sub': r.choice(subnames), 'form': r.choice(['name', 'vp']),
                          'sep': r.choice(['', ';'])})
@@ -434,7 +481,8 @@ def build_case(mname, seed, ndraw, ncmd):
     variables = {}
     if r.random() < 0.5:
         for nm in r.sample(NUMVARS, r.randrange(1, 4)):
-            variables[nm] = r.choice([0, 1, 2, 3, 5, 7, 10, 17, -3, -8, -1, -12, r.randrange(0, 60)])
+            variables[nm] = r.choice([0, 0, 1, 2, 3, 5, 7, 10, 17, -3, -8, -1, -12, -2, -25,
+                                      r.randrange(0, 60), -r.randrange(1, 60)])
     subs, order, strvars = {}, [], []
     if r.random() < 0.45:
         names = SUBNAMES[:r.randrange(1, 4)]
@@ -494,6 +542,23 @@ REGRESSIONS = [
 ]
 
 REGRESSIONS += [
+    # seeded mutation that survived an earlier version: the sign in front of a variable reference
+    # was consumed but not applied (U-=N; E-=K%(2); M+=X;,-=Y;)
+    {'mode': 'cga/1', 'ap': 0, 'vp': 0, 'start': [160, 100, 1],
+     'vars': {'N%': 7, 'K%': -4, 'A%(2)': 9, 'Q!': 0}, 'strvars': [], 'subs': {}, 'sub_order': [],
+     'steps': [{'draw': [
+         {'c': 'C', 'n': 2, 'sep': ''},
+         {'c': 'U', 'pre': '', 'n': {'var': 'N%', 'form': 'name', 'sign': '-'}, 'sep': ''},
+         {'c': 'E', 'pre': '', 'n': {'var': 'A%(2)', 'form': 'name', 'sign': '-'}, 'sep': ''},
+         {'c': 'R', 'pre': 'N', 'n': {'var': 'K%', 'form': 'vp', 'sign': '-'}, 'sep': ''},
+         {'c': 'M', 'pre': '', 'rel': True, 'x': {'var': 'N%', 'form': 'name', 'sign': '+'},
+          'y': {'var': 'K%', 'form': 'name', 'sign': '-'}, 'sep': ''},
+         {'c': 'M', 'pre': '', 'rel': True, 'x': {'var': 'K%', 'form': 'vp', 'sign': '-'},
+          'y': {'var': 'Q!', 'form': 'name', 'sign': '-'}, 'sep': ''},
+         {'c': 'L', 'pre': '', 'n': {'lit': 6, 'sign': '+'}, 'sep': ''}]},
+         {'draw': [{'c': 'S', 'n': {'var': 'K%', 'form': 'name', 'sign': '-'}, 'sep': ''},
+                   {'c': 'C', 'n': {'var': 'Q!', 'form': 'vp', 'sign': '-'}, 'sep': ''},
+                   {'c': 'D', 'pre': '', 'n': 5, 'sep': ''}]}]},
     # fixed 2b9a5f90: DRAW "X"+VARPTR$(A$(1)) with two string arrays executed the other array
     {'mode': 'cga/1', 'ap': 0, 'vp': 0, 'start': [100, 100, 1], 'vars': {}, 'strvars': [],
      'subs': {'A$(1)': [{'c': 'U', 'pre': '', 'n': 10, 'sep': ''}],
@@ -512,6 +577,7 @@ REGRESSIONS += [
 ]
 
 KILLS = [
+    'independently seeded mutation, VERIF_REPO=<scratch> ./check C33 --unit programs (full quick counts): MLParser.parse_number applies the sign only to literals (U-=N; moves the wrong way) -> exit 1, pen.position, draw.pixels, draw.err (S-=var), draw.x-substring.array; also caught by the new REGRESSIONS case (survived before signed variable references were generated)',
     'final code, VERIF_REPO=<scratch> ./check C33 (VERIF_GFX_SCALE=0.15): truncation -> rounding -> exit 1, pen.position + draw.pixels ; B leaking to the next command -> exit 1, draw.pixels',
     'in-process screen (same check_case/strategy as ./check, Hypothesis unit only, stops at first failure)',
     '_draw_step: N does not restore the position -> pen.position',
